@@ -67,7 +67,7 @@ func verifCheckRate(v string) {
 
 // C19 (R1) — every -rate value of L arbitrary ASCII bytes.
 //
-//verif:harness param.L=0..4 thorough.param.L=0..6 unwind=40 thorough.deadline=7000
+//verif:harness param.L=0..4 thorough.param.L=0..5 unwind=40 thorough.deadline=7000
 func verif_harness_C19_rate_bytes() {
 	L := verif_param("L")
 	b := verif_nondet_bytes("v", L)
@@ -116,7 +116,7 @@ func verif_harness_C19_rate_roundtrip() {
 // C19 (H) — repeated -header flags accumulate, keep the key's case, trim
 // blanks around key and value, and reject values without a key or value.
 //
-//verif:harness param.L=0..4 thorough.param.L=0..6 unwind=40
+//verif:harness param.L=0..4 thorough.param.L=0..5 unwind=40
 func verif_harness_C19_headers() {
 	L := verif_param("L")
 	b := verif_nondet_bytes("v", L)
@@ -154,7 +154,7 @@ func verif_harness_C19_headers() {
 // repeated flags with the same source accumulate destinations in order, and
 // anything that is not four colon-separated parts is rejected.
 //
-//verif:harness param.L=0..5 thorough.param.L=0..7 unwind=40
+//verif:harness param.L=0..5 thorough.param.L=0..6 unwind=40
 func verif_harness_C19_connect_to() {
 	L := verif_param("L")
 	b := verif_nondet_bytes("v", L)
